@@ -57,7 +57,7 @@ LEVEL = "model_checking"
 T_UNDEF = "Variable not defined"      # VarNotDefinedError and VarMaybeNotDefinedError
 T_TYPES = "Different types"           # BranchTypeError
 
-VARS = ("x", "y", "inner", "glob")
+VARS = ("x", "y", "inner", "glob", "k")
 IDX = {v: i for i, v in enumerate(VARS)}
 
 A_X1 = Atom("x=1", "x = 1", (("def", "x", "I"),))
@@ -82,13 +82,19 @@ A_GUSE = Atom("use(glob)", "use(glob)", (("use", "glob"),))
 A_GDEF = Atom("glob=2", "glob = 2", (("def", "glob", "I"),))
 A_YG = Atom("y=glob", "y = glob", (("copy", "y", "glob"),))
 GLOBAL_ATOMS = (A_GUSE, A_GDEF, A_YG, A_UY, A_RET)
+# a @comptime PARAMETER `k` (always bound, like every parameter) that the body re-binds on some paths
+A_KUSE = Atom("use(k)", "use(k)", (("use", "k"),))
+A_KINC = Atom("k=k+1", "k = k + nat(1)", (("use", "k"), ("def", "k", "I")))
+A_KSET = Atom("k=2", "k = nat(2)", (("def", "k", "I"),))
+COMPTIME_PARAM_ATOMS = (A_KUSE, A_KINC, A_KSET, A_X1, A_UX, A_RET)
 LIT_ATOMS = (A_X1, A_UX, A_YX, A_UY, A_RET)
 TYPED_ATOMS = (A_XT, A_X2, A_YX, A_UX, A_UY, A_RET)
-ALL_ATOMS = (A_X1, A_XT, A_X2, A_YX, A_UX, A_UY, A_RET, A_DEF, A_CALL, A_Y1, A_DEF2, A_GUSE, A_GDEF, A_YG)
+ALL_ATOMS = (A_X1, A_XT, A_X2, A_YX, A_UX, A_UY, A_RET, A_DEF, A_CALL, A_Y1, A_DEF2, A_GUSE, A_GDEF, A_YG, A_KUSE, A_KINC, A_KSET)
 
 PRELUDE_MOD = "vc08_prelude"
 PRELUDE_SRC = (
-    "from guppylang import guppy\n"
+    "from guppylang import guppy, comptime\n"
+    "from guppylang.std.builtins import nat\n"
     "T = guppy.type_var(\"T\")\n"
     "@guppy.declare\n"
     "def use(x: T) -> None: ...\n"
@@ -119,6 +125,7 @@ def bounds(tier: str) -> dict:
             "nested": [(4, 2, W, False), (3, 2, WF, True)],
             "nested2": [(5, 2, W, False)],
             "shadow-global": [(4, 2, W, False)],
+            "comptime-param": [(3, 2, W, False)],
             "dead": [(3, 2, WF, False)],
             "dead-typed": [(4, 1, W, False)],
             "literal": [(3, 2, WF, False)],
@@ -129,6 +136,7 @@ def bounds(tier: str) -> dict:
         "nested": [(5, 3, W, False), (4, 3, WF, True)],
         "nested2": [(6, 2, W, False), (4, 2, WF, True)],
         "shadow-global": [(5, 3, W, False), (4, 2, WF, True)],
+        "comptime-param": [(4, 2, WF, False)],
         "dead": [(4, 2, WF, False)],
         "dead-typed": [(4, 2, WF, False)],
         "literal": [(4, 2, WF, False)],
@@ -187,6 +195,9 @@ def programs(tier: str):
     for body in _enum(GLOBAL_ATOMS, b["shadow-global"]):
         if _contains(body, A_GDEF):
             yield ("shadow-global", body, None)
+    for body in _enum(COMPTIME_PARAM_ATOMS, b["comptime-param"]):
+        if _contains(body, A_KINC) or _contains(body, A_KSET):
+            yield ("comptime-param", body, None)
     for body in _enum(BASE_ATOMS, b["dead"], allow_dead_code=True):
         if pg.has_dead_code(body):
             yield ("dead", body, None)
@@ -220,7 +231,7 @@ def _step_factory(uses: dict):
 CROSSCHECK_MAX_PATHS = 2000
 
 
-def model(body, dead_code: str = "skip") -> dict:
+def model(body, dead_code: str = "skip", bound_at_entry=()) -> dict:
     """Path-based reaching definitions with a type tag per definition.
 
     Abstract state = (tag of x, tag of y, tag of inner), tag in {U, I, B, F}.
@@ -231,7 +242,7 @@ def model(body, dead_code: str = "skip") -> dict:
     For programs with few paths the fixpoint exploration is cross-checked against a plain
     path-by-path enumeration (a disagreement is a harness error, not a finding)."""
     uses: dict = {}
-    init = ("U",) * len(VARS)
+    init = tuple("I" if v in bound_at_entry else "U" for v in VARS)
     ex = pg.explore_paths(body, init, _step_factory(uses), dead_code=dead_code)
     if dead_code == "skip" and pg.path_count_bound(body, 4) <= CROSSCHECK_MAX_PATHS:
         uses2: dict = {}
@@ -364,7 +375,9 @@ def check_one(item) -> dict:
     Returns a small picklable record."""
     family, body, conds = item
     src, off, lmap = source(body, conds)
-    m = model(body)
+    if family == "comptime-param":
+        src = src.replace("n: int) -> None:", "n: int, k: nat @comptime) -> None:", 1).replace("import guppy, use, glob\n", "import guppy, use, glob, nat, comptime\n", 1)
+    m = model(body, bound_at_entry=("k",) if family == "comptime-param" else ())
     ex = m["ex"]
     rec = {"family": family, "viol": None, "bucket": "", "states": ex.n_states,
            "transitions": ex.n_transitions, "nontrivial": False, "exp": sorted(m["classes"]),
@@ -477,6 +490,8 @@ def _fam(family: str) -> str:
         return "nested"
     if family == "shadow-global":
         return "shadow-global"
+    if family == "comptime-param":
+        return "comptime-param"
     if family.startswith("dead"):
         return "unreachable-code"
     return "flat"
